@@ -331,3 +331,55 @@ def large_container_programs(rng, n, family):
                 lines.append(X(a, [k]))
             lines.append(X([b"XRANGE", k, b"-", b"+"], [k], full=True))
     return lines
+
+
+# ---------------------------------------------------------------------------------------------------------------------------------------
+# "a reply held across a write" (engine alias, harness/alias.go; source fact F7): the reply OBJECT of every reading command of the family is kept
+# unencoded while every writing command of the family runs on the same key (strings: also on a neighbour created the same way), then encoded -
+# it must read as it did when taken.  Sequential and deterministic; quick tier of C01, C09, C10, C11, C12, C18.
+def alias_probe(R, ctx, family, also=()):
+    from . import aliassuite
+    rule = R.rule
+    bad = aliassuite.run_alias(R, ctx, [family] + [f for f in also if f != family])
+    _drop_generic_f7(R, ctx, bool(bad))
+    R.rule = (rule or "") + (" Engine alias: the reply object of every reading command of the family is kept unencoded across every writing command on the "
+                             "same key, then encoded - it must equal the encoding taken at once (no stored byte slice is rewritten in place, fact F7).")
+    return bad
+
+
+def _drop_generic_f7(R, ctx, found):
+    """the suites' generic `proof-broken ... no-failing-input-found` entry is replaced when everything that broke is Props/C01Alias (fact F7) and
+    either an input was found (it is reported with its scenario) or the specific f7-alias-sites entry names the site (as c03.py / c04.py do for F6 / F3)"""
+    br = getattr(ctx, "broken", None) or []
+    if found and br and all(t.startswith("AliasSites.") for t, _ in br):
+        R.violations = [v for v in R.violations if not v[0].endswith("/proof-broken.json")]
+
+
+def alias_aim(R, ctx, own=None, counters=True):
+    """fact F7 is broken (a new in-place write to a possibly stored slice, or a non-owned slice handed to the keyspace): aim the input search at the
+    executor family of the file that holds the new site - the alias probes of that family (all families when the file belongs to none), and the
+    concurrent scenario `counters` (values oscillating across digit boundaries while other clients list them).  If nothing is found the check ends
+    with `VIOLATION ... no-failing-input-found` naming the site and the theorem."""
+    broken = getattr(R, "alias_broken", None)
+    if not broken:
+        return
+    from . import aliassuite, concsuite
+    fams = [f for f in aliassuite.families_of_sites(broken.get("new", [])) if f != own]
+    R.extra["f7_directed"] = dict(families=fams, sites=["%s %s: %s" % (b["file"], b["func"], b["text"]) for b in broken.get("new", [])][:12])
+    if fams:
+        _drop_generic_f7(R, ctx, bool(aliassuite.run_alias(R, ctx, fams, label="aimed-" + "+".join(fams))))
+    if counters and not any(found for _p, _s, found in R.violations):
+        concsuite.run_conc(R, ctx, "f7-counters", ["counters"], (2, 8), race=False)
+    if not any(found for _p, _s, found in R.violations):
+        msgs = [m for f, ms in getattr(R, "facts_broken", []) if f == "F7" for m in ms]
+        _drop_generic_f7(R, ctx, True)
+        R.violation("f7-alias-sites", dict(kind="proof-broken", broken=msgs, theorems=["AliasSites.no_inplace_write_to_stored", "AliasSites.inventory",
+                                                                                         "AliasSites.installed_values_own_their_bytes", "AliasSites.install_inventory"],
+                                           summary="obligation of Props/C01Alias (stored byte slices are never rewritten in place) no longer holds for the regenerated source facts: " +
+                                                   "; ".join(msgs)[:700] + " - no reply changed in the alias probes (families: %s) nor in the counters scenario" % (",".join([own] if own else []) + ",".join(fams))),
+                    found_input=False)
+
+
+def alias_replay(R, payload):
+    from . import aliassuite
+    return aliassuite.replay_alias(R, payload)
